@@ -5,14 +5,18 @@ import (
 	"os"
 	"os/exec"
 	"path/filepath"
+	"runtime"
 	"sort"
 	"strconv"
 	"strings"
+	"sync"
 	"time"
 
 	imodels "github.com/influxdata/influxdb/models"
 	"github.com/influxdata/kapacitor"
 	"github.com/influxdata/kapacitor/edge"
+	"github.com/influxdata/kapacitor/models"
+	"github.com/influxdata/kapacitor/pipeline"
 
 	"verifharness/kit"
 )
@@ -117,7 +121,104 @@ func (r *runner) taskOp(t []string) string {
 
 var taskSeq int
 
+// runLive: the real node's own runF (edge.multiConsumer) on channel edges; one feeder goroutine per parent
+// delivers that parent's points in order, yielding at seeded random places, then closes its edge.
+func (t *taskRun) runLive() string {
+	var l *kapacitor.VerifLive
+	var err error
+	if t.kind == "liveunion" {
+		s := parentsScript(t.cfg.n, false) + fmt.Sprintf("p0|union(%s)", others(t.cfg.n))
+		if t.rename != "" {
+			s += ".rename(" + tickStr(t.rename) + ")"
+		}
+		p, e := mkPipeline(s+"\n", false)
+		if e != nil {
+			return "err:pipeline"
+		}
+		var u *pipeline.UnionNode
+		p.Walk(func(n pipeline.Node) error {
+			if x, ok := n.(*pipeline.UnionNode); ok {
+				u = x
+			}
+			return nil
+		})
+		l, err = kapacitor.VerifLiveUnion(u, t.cfg.n)
+	} else {
+		p, e := mkPipeline(t.cfg.script()+"\n", false)
+		if e != nil {
+			return "err:pipeline"
+		}
+		var jn *pipeline.JoinNode
+		p.Walk(func(n pipeline.Node) error {
+			if x, ok := n.(*pipeline.JoinNode); ok {
+				jn = x
+			}
+			return nil
+		})
+		jn.Tolerance = time.Duration(t.cfg.tol)
+		l, err = kapacitor.VerifLiveJoin(jn, t.cfg.n)
+	}
+	if err != nil {
+		return "err:node"
+	}
+	per := make([][]edge.PointMessage, t.cfg.n)
+	seed := uint64(len(t.writes))
+	for _, w := range t.writes {
+		var dims []string
+		dims = append(dims, t.dims...)
+		per[w.src] = append(per[w.src], edge.NewPointMessage(fmt.Sprintf("m%d", w.src), "db", "rp", models.Dimensions{TagNames: dims},
+			models.Fields(w.fields), models.Tags(w.tags), time.Unix(0, w.t).UTC()))
+		seed = seed*31 + uint64(w.t) + uint64(w.src)
+	}
+	var wg sync.WaitGroup
+	for i := range per {
+		wg.Add(1)
+		go func(i int, r *kit.Rand) {
+			defer wg.Done()
+			for _, p := range per[i] {
+				for k := r.Intn(4); k > 0; k-- {
+					runtime.Gosched()
+				}
+				if r.Chance(1, 6) {
+					time.Sleep(time.Duration(r.Intn(200)) * time.Microsecond)
+				}
+				l.In(i).Collect(p)
+			}
+			l.In(i).Close()
+		}(i, kit.NewRand(seed+uint64(i)))
+	}
+	wg.Wait()
+	type res struct {
+		ms  []edge.Message
+		err error
+	}
+	rc := make(chan res, 1)
+	go func() { ms, err := l.Wait(); rc <- res{ms, err} }()
+	var out res
+	select {
+	case out = <-rc:
+	case <-time.After(20 * time.Second):
+		return "timeout"
+	}
+	if out.err != nil {
+		return "err:node"
+	}
+	var es []string
+	for _, m := range out.ms {
+		if _, ok := m.(edge.PointMessage); ok {
+			es = append(es, renderMsg(m))
+		}
+	}
+	if t.kind != "liveunion" {
+		sort.Strings(es)
+	}
+	return strings.Join(append([]string{strconv.Itoa(len(es))}, es...), " ")
+}
+
 func (t *taskRun) run() string {
+	if strings.HasPrefix(t.kind, "live") {
+		return t.runLive()
+	}
 	tm, err := kit.NewTM(kit.TMOpts{})
 	if err != nil {
 		fmt.Fprintln(os.Stderr, "c12: cannot build TaskMaster:", err)
@@ -250,7 +351,10 @@ func (t *taskRun) batchResult(tm *kit.TM, keys []string) string {
 // ---- generator ----
 
 func genTask(r *kit.Rand) []string {
-	kind := kit.Pick(r, []string{"join", "join", "union", "joinb", "joinon"})
+	return genTaskKind(r, kit.Pick(r, []string{"join", "join", "union", "joinb", "joinon", "livejoin", "liveunion"}))
+}
+
+func genTaskKind(r *kit.Rand, kind string) []string {
 	if kind == "joinon" {
 		return genTaskOn(r)
 	}
@@ -320,8 +424,8 @@ func genTask(r *kit.Rand) []string {
 	if kind == "joinb" {
 		cfg += fmt.Sprintf(" edge=batch win=%d", 10*unit)
 	}
-	if kind == "union" {
-		cfg = fmt.Sprintf("kind=union n=%d tol=0 names=%s dims=%s rename=%s", n, strings.Join(names, ","), dims, kit.Pick(r, []string{"%", "%", "u"}))
+	if kind == "union" || kind == "liveunion" {
+		cfg = fmt.Sprintf("kind="+kind+" n=%d tol=0 names=%s dims=%s rename=%s", n, strings.Join(names, ","), dims, kit.Pick(r, []string{"%", "%", "u"}))
 	}
 	var ops []string
 	for _, pat := range []int{r.Intn(2), 2 + r.Intn(3)} {
@@ -399,6 +503,11 @@ func genTasks(out *kit.Out, r *kit.Rand, n int, tier string) {
 		emit(out, fmt.Sprintf("%s%d", prefix, i), execCase(genTask(r.Fork())))
 		out.Flush()
 	}
+	// cheap: the node's own goroutines on channel edges, many more schedules than through a TaskMaster
+	for i := 0; i < 2*k; i++ {
+		emit(out, fmt.Sprintf("%sl%d", prefix, i), execCase(genTaskKind(r.Fork(), kit.Pick(r, []string{"livejoin", "liveunion"}))))
+	}
+	out.Flush()
 }
 
 // raceTasks (thorough tier): rebuild this harness with the Go race detector and repeat real-task cases
